@@ -170,7 +170,7 @@ static void *job_body(void *vp)
 /* the same program as trials of an experiment: worker threads (and the caller afterwards) are threads like any other */
 static struct job *exp_jobs;
 static void exp_trial(void *vp) { int k = *(int *)vp; struct job j = exp_jobs[k]; j.bar = NULL; job_body(&j); }
-static void exp_trial_term(void *vp) { int k = *(int *)vp; struct job j = exp_jobs[k]; j.bar = NULL; job_body(&j); cmb_random_terminate(); }      /* a trial that tidies up after itself */
+static void exp_trial_term(void *vp) { int k = *(int *)vp; struct job j = exp_jobs[k]; j.bar = NULL; job_body(&j); volatile uint64_t sink = 0; for (int q = 0; q < 40000; q++) sink += cmb_random_sfc64(); (void)sink; cmb_random_terminate(); }      /* a trial of some length that tidies up after itself */
 /* ... and so is a simulated process: the program run from inside a coroutine of a fresh thread */
 static void *proc_job(struct cmb_process *me, void *ctx) { (void)me; struct job *j = ctx; for (int k = 0; k < j->ns; k++) j->out[k] = run_op(&j->S[k]); return NULL; }
 static void *process_job_body(void *vp)
